@@ -8,8 +8,8 @@
 2. Correspondence: real `Id::run` / `Id::paths` / `Id::update` (observed in-language through
    `[p]`, `[path(p)]`, `[path_value(p)]`, `[p |= u]`, `[p = w]`, `[p += w]`, `[p //= w]`, derived
    filters) against the Lean impl-model on: every path expression of depth <= 2 over the atom
-   alphabet, seeded random expressions of depth 3-4, all JSON trees up to 2 (quick) / 3 (thorough)
-   nodes plus a seeded sample of trees up to 5 nodes, update filters `empty . (.,.) .+1 error [.]`.
+   alphabet (quick: 17 atoms, thorough: 27), seeded random expressions of depth 3-4, all JSON trees
+   up to 2 nodes plus a seeded sample of trees up to 5 nodes (each expression on a rotating fifth), update filters `empty . (.,0) .+1 error [.]`.
 3. Model-free oracles on the real binary alone: `[p]` vs `[getpath(path(p))]` (with the manual's
    `//` rule), `path_value`, each row of the manual's update table (`(f|g) |= u` vs
    `f |= (g |= u)` …, `.[] |= u` vs `iter_upd` … with the definitions extracted from
@@ -251,7 +251,10 @@ def run(ctx):
     live = [c for c in cases if "PANIC" not in c[2]]
     ans = ctx.model([c[1] for c in live])
     bad = fuel = 0
-    for (cid, req, real, prog), m in zip(live, ans):
+    # smallest programs first: the first replays written are the most readable ones
+    order = sorted(range(len(live)), key=lambda k: (len(live[k][3]) + len(live[k][1].split(" arr ")[0]), live[k][3]))
+    for k in order:
+        (cid, req, real, prog), m = live[k], ans[k]
         if m.endswith("FUEL") or m in ("bad-program", "bad-request"):
             fuel += 1
             if fuel <= 3:
@@ -271,6 +274,7 @@ def run(ctx):
 
     # --- model-free oracles
     seen = {}
+    oracle_fail.sort(key=lambda o: (len(o[1]) + len(o[3]), o[1]))
     for rule, a, b, inp, ra, rb in oracle_fail:
         n = seen.get(rule, 0)
         seen[rule] = n + 1
